@@ -35,7 +35,7 @@ m = {
     ],
     "checks": checks,
     "not_applicable": na,
-    "notes": "Technique family: solver-based checking of the real code (see DESIGN.md). Exit 2 = ENCODER-DEFECT (a model did not reproduce; nothing claimed), exit 3 = build failure.",
+    "notes": "Technique family: solver-based checking of the real code (see DESIGN.md). Exit 2 = ENCODER-DEFECT (a counterexample did not reproduce on the real code or the machinery itself failed; nothing is claimed), exit 3 = build failure. Paths that leave the modelled MIR/std fragment of Engine B, solver time-outs and resource limits are printed as UNDECIDED lines and counted in the evidence; they do not change the exit code (the exit code speaks about what was explored).",
 }
 json.dump(m, open(os.path.join(V, "MANIFEST.json"), "w"), indent=1)
 print("checks:", [c["property_id"] for c in checks], "n/a:", [x["property_id"] for x in na])
